@@ -78,7 +78,6 @@ typedef struct atom_group_struct_tag {
     unsigned      count;     /* # of times this group has been initialized */
     unsigned      hash_size; /* size of the hash table to store the atoms in */
     unsigned      atoms;     /* current number of atoms held */
-    unsigned      nextid;    /* atom ID to use for the next atom */
     atom_info_t **atom_list; /* pointer to an array of ptrs to atoms */
 } atom_group_t;
 
@@ -88,6 +87,13 @@ typedef struct atom_group_struct_tag {
 
 /* Array of pointers to atomic groups */
 static atom_group_t *atom_group_list[MAXGROUP] = {NULL};
+
+/* Atom ID to use for the next atom of each group. Kept outside the group
+ * structure so that it survives HAdestroy_group()/HAshutdown(): an ID must not
+ * be issued a second time when a group is created again, or a stale ID would
+ * designate the new object.
+ */
+static unsigned atom_next_id[MAXGROUP] = {0};
 
 /* Pointer to the atom node free list */
 static atom_info_t *atom_free_list = NULL;
@@ -160,7 +166,6 @@ HAinit_group(group_t  grp,      /* IN: Group to initialize */
         /* Initialize the atom group structure */
         grp_ptr->hash_size = hash_size;
         grp_ptr->atoms     = 0;
-        grp_ptr->nextid    = 0;
         if ((grp_ptr->atom_list = (atom_info_t **)calloc(hash_size, sizeof(atom_info_t *))) == NULL)
             HGOTO_ERROR(DFE_NOSPACE, FAIL);
     }
@@ -263,13 +268,13 @@ HAregister_atom(group_t grp,   /* IN: Group to register the object in */
         HGOTO_ERROR(DFE_NOSPACE, FAIL);
 
     /* Create the atom & it's ID */
-    atm_id           = MAKE_ATOM(grp, grp_ptr->nextid);
+    atm_id           = MAKE_ATOM(grp, atom_next_id[grp]);
     atm_ptr->id      = atm_id;
     atm_ptr->obj_ptr = object;
     atm_ptr->next    = NULL;
 
     /* Simple mod operation to find hash bucket */
-    hash_loc = grp_ptr->nextid % grp_ptr->hash_size;
+    hash_loc = atom_next_id[grp] % grp_ptr->hash_size;
 
     /* Hash bucket already contains linked list nodes, prepend to front */
     if (grp_ptr->atom_list[hash_loc] != NULL)
@@ -278,7 +283,7 @@ HAregister_atom(group_t grp,   /* IN: Group to register the object in */
     /* Insert into the group */
     grp_ptr->atom_list[hash_loc] = atm_ptr;
     grp_ptr->atoms++;
-    grp_ptr->nextid++;
+    atom_next_id[grp]++;
 
     ret_value = atm_id;
 
